@@ -464,6 +464,7 @@ func c02(r *ev.Run) {
 		}
 	}
 	r.Count("scripts_that_reached_their_pause_point", int64(nscripts))
+	r.Require("filtered_request_in_hand_when_backend_reset", 2)
 	r.Sample(map[string]interface{}{"script": c02Script{Hook: c02Hooks[2], Fault: "reset-conn", Class: "simple"}, "steps": "warm-up; node silent; arm park; send GET; wait parked; reset backend connection; wait until the node sees it closed; release; expect a reply within the progress-relative deadline"})
 	c02FullQueue(r, e)
 	e.stop()
@@ -782,16 +783,36 @@ func c02FilteredAfterPending(r *ev.Run) {
 		}
 		conn.DoS(5*time.Second, "SET", ka[0], "warm")
 		// hold the backend writer right after it dequeued the first request, until the second one is queued behind it
-		s.HookArm("redis.client.write.after_dequeue", sutc.HookAction{Mode: "park", Times: 1})
+		withReset := rep%2 == 1
+		times := 1
+		if withReset {
+			times = 2 // the writer is held a second time, with the filtered request in hand
+		}
+		s.HookArm("redis.client.write.after_dequeue", sutc.HookAction{Mode: "park", Times: times})
 		banned := []string{"APPEND", "SETRANGE", "GETBIT"}[rep%3]
 		conn.C.Write(append(resp.CmdS("GET", ka[1+rep%8]), resp.CmdS(banned, ka[1+rep%8], "1", "x")...))
 		parked := s.WaitParked("redis.client.write.after_dequeue", 1, 2*time.Second)
-		withReset := rep%2 == 1
-		if withReset {
-			// the flush that follows the filtered request hits a connection that is already gone
-			cl.Nodes[0].KillConns(true)
-		}
 		time.Sleep(30 * time.Millisecond)
+		if withReset && parked {
+			// request 1 is written into the buffer (not flushed: request 2 is pending) and handed over; the writer dequeues request 2
+			// and is held again; now the backend resets the connection, the backend reader notices and closes it; the flush that
+			// follows the filtered request then fails with request 2 already answered by the filter
+			hitsBefore, _ := s.HookState("redis.client.write.after_dequeue")
+			s.HookReleaseParked("redis.client.write.after_dequeue")
+			again := false
+			for i := 0; i < 200 && !again; i++ {
+				st, _ := s.HookState("redis.client.write.after_dequeue")
+				again = st["hits"] > hitsBefore["hits"] && st["parked"] >= 1
+				if !again {
+					time.Sleep(5 * time.Millisecond)
+				}
+			}
+			if again {
+				cl.Nodes[0].KillConns(true)
+				time.Sleep(40 * time.Millisecond)
+				r.Count("filtered_request_in_hand_when_backend_reset", 1)
+			}
+		}
 		s.HookRelease("redis.client.write.after_dequeue")
 		if !parked {
 			r.Inconclusive("filtered-after-pending-not-parked")
